@@ -156,7 +156,7 @@ def cut_inside_match(case):
     """True if the case's first readuntil/readline call has a separator
     occurrence in its stream with a packet boundary strictly inside it (used
     to prioritise cases, never for a verdict)"""
-    _, streams, hist = case
+    streams, hist = case[1], case[2]
     call = next((l for l in hist if l[0] == 'call'), None)
     if call is None or call[2] not in ('until', 'line'):
         return False
